@@ -371,7 +371,20 @@ class Gen1:
                 return out
             if k < 0.7:
                 self.facts["while"] += 1
-                return [p + "while $x < %d" % rng.randint(1, 3)] + self.block(depth - 1, ind + 1, True) + [p + "  $x = $x + 1"]
+                head = [p + "while $x < %d" % rng.randint(1, 3)]
+                body = self.block(depth - 1, ind + 1, True)
+                incr = [p + "  $x = $x + 1"]
+                v = rng.random()
+                if v < 0.5:
+                    return head + body + incr
+                if v < 0.68:
+                    return head + incr + body  # the body's own last statement (break, if/else, when, …) closes the loop
+                if v < 0.86:
+                    self.facts["brk"] += 1
+                    return head + incr + body + [p + "  " + rng.choice(["break", "break", "return", "continue", "stop"])]
+                self.facts["brk"] += 1
+                tail = [p + "  if $x == %d" % rng.randint(0, 2), p + "    bot b%d" % self.uniq(), p + "  else", p + "    " + rng.choice(["break", "return", "continue"])]
+                return head + incr + body + tail
             self.facts["branch"] += 1
             out = [p + "when user i%d" % self.uniq()] + self.block(depth - 1, ind + 1, inloop)
             for _ in range(rng.choice([0, 1, 1, 2])):
